@@ -102,7 +102,18 @@ func parseSpec(x Sx) *stateSpec {
 		}
 		s.Accounts = append(s.Accounts, a)
 	}
+	s.normalise()
 	return s
+}
+
+// An empty genesis alloc commits nothing, so in path scheme the flat-state generator of a fresh
+// database is still running in the background when blocks arrive and the iterators answer
+// "not available" for a while (timing dependent, not a property of the handlers): no blocks on
+// top of an empty alloc.
+func (s *stateSpec) normalise() {
+	if len(s.Accounts) == 0 {
+		s.Blocks = 0
+	}
 }
 
 func buildChain(s *stateSpec) (*core.BlockChain, common.Hash) {
@@ -424,6 +435,67 @@ func isZero(b []byte) bool {
 // hardLimit as an exact rational bound: the handler uses uint64(float64(B) * 1.1)
 func hardLimit(B_ uint64) uint64 { return uint64(float64(B_) * (1 + 0.1)) }
 
+// clientCheckStorage is the check a requester runs on a storage-ranges reply (snap sync
+// OnStorage): slot set #i belongs to the i-th requested account (accounts without any storage
+// are never requested by a client and get no set from the server, so they are left out); every
+// set but the last, and the last one when no proof is attached, must verify as the COMPLETE
+// storage trie of its account (VerifyRangeProof with nil proof); the last set with a proof must
+// verify from the request origin with the proof, and the verifier's `more` flag must agree with
+// the true storage; an empty reply for a first account that has storage and a non-zero origin
+// must carry a proof of emptiness that verifies with more=false.
+func clientCheckStorage(v *view, accounts []common.Hash, origin common.Hash, B_ uint64, slots [][]*snap.StorageData, proof [][]byte) string {
+	var elig []*accView
+	firstElig := false
+	for i, h := range accounts {
+		if av := v.account(h); av != nil && len(av.Slots) > 0 {
+			elig = append(elig, av)
+			if i == 0 {
+				firstElig = true
+			}
+		}
+	}
+	if len(slots) > len(elig) {
+		return fmt.Sprintf("storage ranges (client check): %d slot sets for %d requested accounts with storage", len(slots), len(elig))
+	}
+	for i, l := range slots {
+		av := elig[i]
+		var keys, vals [][]byte
+		for _, s := range l {
+			keys = append(keys, append([]byte{}, s.Hash[:]...))
+			vals = append(vals, s.Body)
+		}
+		if i < len(slots)-1 || len(proof) == 0 {
+			if _, err := trie.VerifyRangeProof(av.Root, nil, keys, vals, nil); err != nil {
+				return fmt.Sprintf("storage ranges (client check): slot set #%d does not verify as the complete storage of requested account %x: %v", i, av.Hash, err)
+			}
+			continue
+		}
+		var og common.Hash
+		if i == 0 && firstElig {
+			og = origin
+		}
+		cont, err := trie.VerifyRangeProof(av.Root, og[:], keys, vals, proofDB(proof))
+		if err != nil {
+			return fmt.Sprintf("storage ranges (client check): proven slot set #%d does not verify for requested account %x from origin %x: %v", i, av.Hash, og, err)
+		}
+		more := len(l) > 0 && bytes.Compare(av.Slots[len(av.Slots)-1].Hash[:], l[len(l)-1].Hash[:]) > 0
+		if cont != more {
+			return fmt.Sprintf("storage ranges (client check): verifier says more=%v, the storage of %x has more=%v", cont, av.Hash, more)
+		}
+	}
+	if len(slots) == 0 && firstElig && origin != (common.Hash{}) && B_ > 0 {
+		av := elig[0]
+		if len(proof) == 0 {
+			return fmt.Sprintf("storage ranges (client check): empty slot set for requested account %x with non-zero origin %x carries no proof of emptiness (indistinguishable from 'state unavailable')", av.Hash, origin)
+		}
+		cont, err := trie.VerifyRangeProof(av.Root, origin[:], nil, nil, proofDB(proof))
+		if err != nil || cont {
+			return fmt.Sprintf("storage ranges (client check): proof of emptiness from origin %x does not verify for %x: more=%v err=%v", origin, av.Hash, cont, err)
+		}
+	}
+	return ""
+}
+
 func runStorageRanges(bc *core.BlockChain, v *view, r SL) (o reqOut) {
 	shape(len(r) == 6, "req1 shape")
 	root := reqRoot(r[1], v.Root)
@@ -470,6 +542,10 @@ func runStorageRanges(bc *core.BlockChain, v *view, r SL) (o reqOut) {
 	if bytes.Compare(origin[:], limit[:]) > 0 {
 		o.tags = append(o.tags, "stor:inverted")
 	}
+	// The requester's own check (what the syncer does with the reply), independent of the rest.
+	if msg := clientCheckStorage(v, accounts, origin, B_, slots, proof); msg != "" {
+		fail(&o, "%s", msg)
+	}
 	// Assign the returned lists to requested accounts, in request order.
 	var size uint64
 	ai := 0 // next requested account
@@ -496,7 +572,10 @@ func runStorageRanges(bc *core.BlockChain, v *view, r SL) (o reqOut) {
 			}
 			f := sort.Search(len(cand.Slots), func(i int) bool { return bytes.Compare(cand.Slots[i].Hash[:], og[:]) >= 0 })
 			if f == len(cand.Slots) {
-				continue
+				// only possible for the first account with a non-zero origin behind its last slot:
+				// the reply must be the proof of emptiness alone
+				fail(&o, "storage ranges: slot set %d served although the first requested account's range from the non-zero origin is empty (it must be answered by a proof of emptiness only; the set would be taken for that account)", li)
+				return
 			}
 			if cand.Slots[f].Hash == l[0].Hash {
 				av, from = cand, f
@@ -924,6 +1003,7 @@ func genSpec(r *Rng) *stateSpec {
 		}
 		s.Accounts = append(s.Accounts, a)
 	}
+	s.normalise()
 	return s
 }
 
@@ -1018,6 +1098,14 @@ func genOriginBytes(r *Rng, keys []common.Hash, adversarial bool) []byte {
 			}
 			return bytes.Repeat([]byte{0xff}, 32)
 		}
+	}
+	if len(keys) > 0 && r.Chance(1, 4) {
+		// behind the last slot: the requested range is empty
+		k := addBig(keys[len(keys)-1], int64(r.Range(1, 3)))
+		if r.Chance(1, 4) {
+			k = common.MaxHash
+		}
+		return k[:]
 	}
 	k := pickKey(r, keys)
 	return k[:]
@@ -1264,6 +1352,19 @@ func witnessCases() []Sx {
 				L(I(1), I(1), accs, B(nil), B([]byte{0}), U(1)),
 				L(I(1), I(1), accs, B(nil), B([]byte{0}), U(100000)),
 				L(I(1), I(1), accs, B(make([]byte, 32)), B(make([]byte, 32)), U(100000)))
+		}
+		// origins behind the last slot, at the last slot, between and at the first slot of the
+		// FIRST requested account, with one and several accounts per request
+		for _, order := range [][]int{{0}, {1}, {0, 1}, {1, 0}, {0, 1, 0}} {
+			var accs SL
+			for _, i := range order {
+				accs = append(accs, hN(v.Accounts[i].Hash))
+			}
+			sl := v.Accounts[order[0]].Slots
+			lastK, firstK := sl[len(sl)-1].Hash, sl[0].Hash
+			for _, og := range []common.Hash{addBig(lastK, 1), common.MaxHash, lastK, addBig(firstK, 1), firstK, addBig(firstK, -1)} {
+				reqs = append(reqs, L(I(1), I(1), accs, B(og[:]), B(nil), U(100000)), L(I(1), I(1), accs, B(og[:]), B(common.MaxHash[:]), U(1)))
+			}
 		}
 		out = append(out, L(v.sx(), reqs, spec.sx()))
 	}
